@@ -23,10 +23,13 @@ HARNESSES = [
          malloc_fail=True, flags=["--memory-leak-check", "--unsigned-overflow-check"],
          unwind=2, timeout=600,
          cases=[dict(id="all", tier="quick")]),
-    dict(name="new_sparse", file="new_sparse.c", label="proved", defines=CT,
-         loops=["decode", "read_gnu_new_sparse"], fp={"get_filename": "env_get_filename"},
-         timeout=900, weight=5,
-         cases=[dict(id="unbounded", tier="quick")]),
+    dict(name="new_sparse", file="new_sparse.c", label="bounded(sparse map entries <= 2)", defines=CT,
+         fp={"get_filename": "env_get_filename"}, unwind=513,
+         flags=["--memory-leak-check"], timeout=1500, weight=9,
+         cases=[dict(id="ent1", defines={"MAXENT": 1}, tier="quick",
+                     unwindset=["decode.0:1025", "read_gnu_new_sparse.0:4"]),
+                dict(id="ent2", defines={"MAXENT": 2}, tier="thorough",
+                     unwindset=["decode.0:1025", "read_gnu_new_sparse.0:6"])]),
     dict(name="read_header", file="read_header.c", label="bounded(header records per call <= 3)",
          defines=CT, unwind=513, malloc_fail=True, timeout=900, weight=7,
          nochecks=["--conversion-check"],
